@@ -105,8 +105,8 @@ def check_line(rec):
     mism.append((feat('post-state'), f'{op}: post {json.dumps(post)} spec {json.dumps(rec["post"])}'))
   if op['name'] == 'iter':
     got = yielded_multiset(ret, root)
-    exp = rec['ret'] if isinstance(rec['ret'], dict) else {}
-    if got != {k: v for k, v in exp.items()}:
+    exp = {str(p[0]): p[1] for p in rec['ret']}
+    if got != exp:
       mism.append((feat('iter-values'), f'iteration yielded {got}, spec {exp}'))
   if op['name'].startswith('list_tags') and [ret] != rec['ret']:
     mism.append((feat('list-tags'), f'list_tags gave mask {ret}, spec {rec["ret"]}'))
